@@ -1529,6 +1529,16 @@ func (u *Unit) callAsserts(st *State, x *ast.CallExpr) {
 		u.callAssertSeen[ca.N] = true
 		env := u.specEnvLocal(st, x.Pos(), 0)
 		env.what = u.name + " at call " + key
+		if ca.Bind != "" {
+			// ghost local: remembers a value for later assertions of this function
+			if _, clash := u.eng.cs.Ghosts[ca.Bind]; clash {
+				u.eng.specError("%s: bind name %s is a declared ghost variable", env.what, ca.Bind)
+				continue
+			}
+			v, _ := u.evalSpec(st, ca.E, env, false)
+			st.gvars[ca.Bind] = v
+			continue
+		}
 		g, q := u.evalSpecBool(st, ca.E, env, false)
 		if ca.Assume {
 			// an explicit assumption about the input at this point (listed in the evidence, never counted as proved)
